@@ -19,7 +19,7 @@ def eval_bools(prop, name, header, checks, timeout=900, jobs=5, nshards=None):
             os.remove(os.path.join(d, f))
     if not checks:
         return []
-    nshards = nshards or max(1, min(len(checks), 2 * jobs))
+    nshards = nshards or max(1, min(len(checks), jobs))
     order = sorted(range(len(checks)), key=lambda i: -len(checks[i]))
     bins = [[] for _ in range(nshards)]
     load = [0] * nshards
